@@ -715,10 +715,18 @@ def gen_alloc_op(rng):
     body = bytes(rng.randrange(256) for _ in range(rng.choice([0, 3, 10])))
     return f"alloc {rng.choice([4, 5])} {hx(bytes([(t << 4) | fl]) + vbi_enc(n) + body)}"
 
+def gen_pf_op(rng):
+    """an encode that fails after n bytes (a connection dying mid-flush); the encodes of the following ops must be unaffected"""
+    ver = rng.choice([4, 5, 5])
+    typ = rng.choice(["PUBLISH", "PUBLISH", "PUBLISH", "CONNECT", "SUBSCRIBE", "SUBACK", "PUBACK", "UNSUBSCRIBE", "DISCONNECT"])
+    data = gen_packet(rng, ver, typ, 0.0)
+    return f"pf {ver} {hx(data)} {rng.choice([0, 0, 1, 2, 3, 5, 20, 700])}"
+
 def gen(rng):
     ops = []
     for _ in range(rng.choice([4, 8, 12])):
         r = rng.random()
+        if rng.random() < 0.12: ops.append(gen_pf_op(rng))
         if r < 0.10: ops.append(gen_keep_op(rng))
         elif r < 0.62: ops.append(gen_dec_op(rng))
         elif r < 0.78: ops.append(gen_valid_op(rng))
@@ -970,7 +978,7 @@ def check_alloc(op, o):
 CHECK = {"dec": check_dec, "vt": check_valid, "vf": check_valid, "v5": check_valid, "u8": check_valid,
          "rvt": check_valid, "rvf": check_valid, "rv5": check_valid, "vbi": check_vbi,
          "evbi": check_vbi, "msg": check_msg, "mk": check_msg, "stream": check_stream, "alloc": check_alloc,
-         "keep": check_keep}
+         "keep": check_keep, "pf": (lambda op, o: None if o == "pf" else f"`{op}` -> {o}")}
 
 def predicate(ops, out):
     if not ops:
